@@ -29,6 +29,7 @@ logging.disable(logging.CRITICAL)
 
 BOUND = 40.0  # seconds allowed to reach COMMUNICATING (timers: T3 = T6 = 5 s so that machine load cannot trip them, establish-communication delay = 1 s)
 CALL_BOUND = 20.0
+STOP_AFTER = 6  # violations after which no further scenario is started (each failing call may cost a full time-out)
 
 
 class Equip(secsgem.gem.GemEquipmentHandler):
@@ -228,6 +229,8 @@ def service_calls(res, rng, host, eq, scen, n_calls):
     # every first use of a pair names a predefined event by its enum member once (deterministic prelude), the rest is random
     forced = [("subscribe", 21), ("trigger", 21), ("trigger", 21), ("sys0", None)] if 21 not in subscribed else [("sys0", None)]
     for i in range(n_calls + len(forced)):
+        if len(res.violations) >= STOP_AFTER:
+            return  # enough failing inputs recorded: a code change that makes every call run into its time-out must not use up the budget
         force_ceid = None
         if forced:
             op, force_ceid = forced.pop(0)
@@ -495,6 +498,8 @@ def scenario(res, rng, drv_lines, host_active, eq_first, seg, delays, n_calls, c
             return
         service_calls(res, rng, host, eq, scen, n_calls)
         for c in range(cycles):
+            if len(res.violations) >= STOP_AFTER:
+                break
             who = rng.choice(["host", "equipment"])
             h = host if who == "host" else eq
             st, _ = bounded(h.disable, 30)
@@ -591,6 +596,8 @@ def main():
     n = 0
     for rep in range(3 if big else 1):
         for ha, ef in combos:
+            if len(res.violations) >= STOP_AFTER:
+                break
             seg = segs[(n + a.seed) % len(segs)] if n < 4 else [rng.range(1, 40) for _ in range(8)]
             dl = dels[(n + a.seed) % len(dels)]
             scenario(res, rng.fork(f"s{n}"), drv_lines, ha, ef, seg, dl, 40 if big else 14, 3 if big else 1, f"s{n}")
@@ -598,11 +605,15 @@ def main():
     # a transport whose enable() returns only once the link is selected (second-enabled side): the handler must have enabled its
     # communication state machine before it enables the protocol
     for ha, ef in (combos if big else [combos[a.seed % 4], combos[(a.seed + 3) % 4]]):
+        if len(res.violations) >= STOP_AFTER:
+            break
         scenario(res, rng.fork(f"slow{n}"), drv_lines, ha, ef, [1 << 30], [0.0], 4, 0, f"slow{n}", slow_enable=True)
         n += 1
     # disable() in the middle of an establish attempt (peer's GEM layer not up: S1F13 never answered), then a proper start
     mids = [(ha, who, stt) for ha in (True, False) for who in ("host", "equip") for stt in ("WAIT_DELAY", "WAIT_CRA")]
     for k, (ha, who, stt) in enumerate(mids if big else [mids[(a.seed + j * 3) % 8] for j in range(3)]):
+        if len(res.violations) >= STOP_AFTER:
+            break
         scenario_disable_mid_establish(res, rng.fork(f"mid{k}"), ha, who, stt, f"mid{k}")
     if WAIT_LIES:
         res.violate("c20-waitfor-wrong", "waitfor_communicating() returned True while that handler's own communication state was not COMMUNICATING "
@@ -610,9 +621,11 @@ def main():
     # abstraction check: every observed step of the joint (session, communication) state is a path of the abstract pair model
     drv = hlib.Driver()
     import c20_gem
-    c20_gem.run(res, rng, drv, a.tier)
+    if len(res.violations) < STOP_AFTER:
+        c20_gem.run(res, rng, drv, a.tier)
     import c20_wire
-    c20_wire.run(res, rng, drv, a.tier)
+    if len(res.violations) < STOP_AFTER:
+        c20_wire.run(res, rng, drv, a.tier)
     if drv.available and drv_lines:
         try:
             outs = drv.run([l for _, l in drv_lines])
